@@ -516,6 +516,57 @@ pub fn drive(log: &mut Log) {
         log.oblige("tok_exhaustive");
     }
 
+    // ---------------- (a2) every sequence of up to NL lines over a small set of line tokens
+    // (multi-line FASTQ structure: blank lines, '+' lines, quality lines that look like headers)
+    const LTOK: [&[u8]; 8] = [b"@A", b"A", b"+", b"", b"!!", b">A", b" A ", b"+A"];
+    let nl_max = if thorough { 5 } else { 4 };
+    let mut combos: Vec<Vec<usize>> = vec![vec![]];
+    let mut cur: Vec<Vec<usize>> = vec![vec![]];
+    for _ in 0..nl_max {
+        let mut nxt = vec![];
+        for c in &cur {
+            for t in 0..LTOK.len() {
+                let mut d = c.clone();
+                d.push(t);
+                nxt.push(d);
+            }
+        }
+        combos.extend(nxt.iter().cloned());
+        cur = nxt;
+    }
+    for (bi, chunk) in combos.chunks(64).enumerate() {
+        case += 1;
+        if !log.mine(case) {
+            continue;
+        }
+        if !log.begin("linetok", raw_cfg("tok")) {
+            continue;
+        }
+        for (j, c) in chunk.iter().enumerate() {
+            let n = bi * 64 + j;
+            let (crlf, final_nl) = match n % 3 {
+                0 => (false, true),
+                1 => (false, false),
+                _ => (true, true),
+            };
+            let mut b: Vec<u8> = vec![];
+            for (k, &t) in c.iter().enumerate() {
+                b.extend_from_slice(LTOK[t]);
+                if k + 1 < c.len() || final_nl {
+                    b.extend_from_slice(nl(crlf));
+                }
+            }
+            let cap = CAPS[n % CAPS.len()];
+            let sched: Vec<usize> = if n % 2 == 0 { vec![] } else { vec![1, 2] };
+            let r = parse_event(log, "fastq", "iter", &b, cap, &sched, &NOLAY);
+            note_items(log, &r);
+            let p2 = if n % 2 == 0 { "fasta" } else { "either" };
+            let r = parse_event(log, p2, "iter", &b, cap, &sched, &NOLAY);
+            note_items(log, &r);
+        }
+        log.oblige("line_tokens_exhaustive");
+    }
+
     // ---------------- (a') longer random token strings
     let nlong = log.opts.n(160, 1500);
     for _ in 0..nlong {
@@ -584,43 +635,34 @@ pub fn drive(log: &mut Log) {
         let maxlen = recs.iter().map(|r| r.seq.len()).max().unwrap_or(1);
         // wraps: None, 1, 2, 7, 60, len, len+1  (fastq writer has no wrap)
         let wraps: Vec<usize> = vec![0, 1, 2, 7, 60, maxlen, maxlen + 1];
+        // streams: (lay, wrap, crlf). lay = 1: bytes of the real writer (a `write` event precedes
+        // them); lay = 2: layout built by the harness (re-wrapped / CRLF / multi-line FASTQ)
         let w0 = if kind == "fasta" { *rng.pick(&wraps) } else { 0 };
-        let via_record = rng.coin();
-        let mut written: Vec<u8> = vec![];
-        log.call("write", json!({"wrap": w0, "via_record": if via_record {1} else {0}}), || {
-            written = real_write(kind, &recs, w0, via_record);
-            json!({"b": bytes(&written)})
-        });
-        if i % 3 == 0 {
-            log.call("display", json!({}), || json!({"b": bytes(&display(kind, &recs))}));
+        let mut streams: Vec<(i64, usize, bool)> = vec![(1, w0, false)];
+        if kind == "fasta" && !small {
+            streams.push((1, *rng.pick(&wraps), false));
         }
-        // the stream as written, read under several capacities / schedules
-        let parsers: [&str; 2] = [kind, "either"];
-        let nvar = if small { 2 } else { 4 };
-        for v in 0..nvar {
-            let cap = CAPS[(i as usize + v) % CAPS.len()];
-            if cap == 1 {
-                log.oblige("cap1");
-            }
-            if cap == 8192 {
-                log.oblige("cap8192");
-            }
-            let sched = gen_sched(&mut rng, &written, i + v as u64, log);
-            let p = parsers[v % 2];
-            let how = if v == 3 { "read" } else { "iter" };
-            let lay = Lay { lay: 1, wrap: w0 as i64, crlf: 0, cut: -1 };
-            let r = parse_event(log, p, how, &written, cap, &sched, &lay);
-            note_items(log, &r);
-            if p == "either" {
-                log.oblige(if kind == "fasta" { "either_fasta" } else { "either_fastq" });
-            }
-        }
-        // re-wrapped / CRLF layouts of the same records
         let nlay = if small { 2 } else { 3 };
         for v in 0..nlay {
             let wrap = if kind == "fastq" && !wrapped_fq { 0 } else { *rng.pick(&wraps) };
-            let crlf = (v + i as usize) % 2 == 1;
-            let b = if kind == "fasta" && !crlf { real_write(kind, &recs, wrap, false) } else { wire(kind, &recs, wrap, crlf) };
+            streams.push((2, wrap, (v + i as usize) % 2 == 1));
+        }
+        let parsers: [&str; 2] = [kind, "either"];
+        for (sidx, &(layk, wrap, crlf)) in streams.iter().enumerate() {
+            let b: Vec<u8> = if layk == 1 {
+                let via_record = rng.coin();
+                let mut written: Vec<u8> = vec![];
+                log.call("write", json!({"wrap": wrap, "via_record": if via_record {1} else {0}}), || {
+                    written = real_write(kind, &recs, wrap, via_record);
+                    json!({"b": bytes(&written)})
+                });
+                if i % 3 == 0 && sidx == 0 {
+                    log.call("display", json!({}), || json!({"b": bytes(&display(kind, &recs))}));
+                }
+                written
+            } else {
+                wire(kind, &recs, wrap, crlf)
+            };
             if crlf {
                 log.oblige("crlf");
             }
@@ -636,14 +678,30 @@ pub fn drive(log: &mut Log) {
             if kind == "fastq" && wrap > 0 {
                 log.oblige("fastq_multiline");
             }
-            let cap = *rng.pick(&CAPS);
-            let which = rng.next();
-                let sched = gen_sched(&mut rng, &b, which, log);
-            let lay = Lay { lay: 1, wrap: wrap as i64, crlf: crlf as i64, cut: -1 };
-            let p = parsers[(v + 1) % 2];
-            let r = parse_event(log, p, "iter", &b, cap, &sched, &lay);
-            note_items(log, &r);
-            // truncation of this layout
+            // the whole stream under several capacities / schedules, directly and through the sniffer
+            let nvar = if sidx == 0 { if small { 2 } else { 4 } } else { 2 };
+            for v in 0..nvar {
+                let cap = CAPS[(i as usize + v + sidx) % CAPS.len()];
+                if cap == 1 {
+                    log.oblige("cap1");
+                }
+                if cap == 8192 {
+                    log.oblige("cap8192");
+                }
+                let sched = gen_sched(&mut rng, &b, i + (v + sidx) as u64, log);
+                let p = parsers[(v + sidx) % 2];
+                let how = if v == 3 { "read" } else { "iter" };
+                let lay = Lay { lay: layk, wrap: wrap as i64, crlf: crlf as i64, cut: -1 };
+                let r = parse_event(log, p, how, &b, cap, &sched, &lay);
+                note_items(log, &r);
+                if p == "either" {
+                    log.oblige(if kind == "fasta" { "either_fasta" } else { "either_fastq" });
+                }
+            }
+            // truncation of this stream
+            if sidx == 1 && layk == 1 {
+                continue;
+            }
             let cuts: Vec<usize> = if small && b.len() <= 90 {
                 log.oblige("cut_all_offsets");
                 (0..b.len()).collect()
@@ -667,9 +725,9 @@ pub fn drive(log: &mut Log) {
                 c
             };
             for (ci, &c) in cuts.iter().enumerate() {
-                let cap = CAPS[(ci + v) % CAPS.len()];
+                let cap = CAPS[(ci + sidx) % CAPS.len()];
                 let sched: Vec<usize> = if ci % 2 == 0 { vec![] } else { vec![3, 1] };
-                let lay = Lay { lay: 1, wrap: wrap as i64, crlf: crlf as i64, cut: c as i64 };
+                let lay = Lay { lay: layk, wrap: wrap as i64, crlf: crlf as i64, cut: c as i64 };
                 let p = if ci % 3 == 2 { "either" } else { kind };
                 let r = parse_event(log, p, "iter", &b[..c], cap, &sched, &lay);
                 note_items(log, &r);
